@@ -191,7 +191,13 @@ class SiteServer(fakenet.BaseServer):
     def on_data(self, ep, data):
         self.buf += data
         while b'\r\n\r\n' in self.buf:
-            head, self.buf = self.buf.split(b'\r\n\r\n', 1)
+            head, rest = self.buf.split(b'\r\n\r\n', 1)
+            # a request with a body (--post-data): the body belongs to this request
+            m = re.search(rb'(?im)^content-length:[ \t]*(\d+)[ \t]*\r?$', head)
+            n = int(m.group(1)) if m else 0
+            if len(rest) < n:
+                return
+            self.buf = rest[n:]
             self.run.on_request(ep, head)
 
 
